@@ -206,6 +206,10 @@ impl Types {
                 }
             }
             MemberKind::Uint(n) => {
+                ensure!(
+                    !value.as_f64().is_some_and(|v| v < 0.),
+                    "negative value {value} for uint{n}",
+                );
                 let value = permissive::deserialize::<U256, _>(value)?;
                 ensure!(
                     value.leading_zeros() + n >= 256,
